@@ -23,7 +23,7 @@ class ElfPrims:
         self.mem = {m("mem_init_area_named"): "init_area", m("mem_init_zero_named"): "init_zero", m("mem_prot"): "prot",
                     m("mem_get_area"): "get_area", m("write_fs"): "write_fs", m("read_fs"): "read_fs"}
         self.mem_write_bytes = ctx.roles.mem_write_bytes
-        self.empty = m("empty")
+        self.empty = ctx.roles.hook_roles()[4]
         self.elf_entry_points = set()
 
     def intercept(self, I, path, frame, t, name, args):
@@ -58,8 +58,8 @@ class ElfPrims:
             g = " ".join(t["f"].get("gargs", []))
             p2 = path.copy()
             what = "seg" if "ProgramHeader" in g else "sym"
-            path.events.append(("next", what, "some"))
-            p2.events.append(("next", what, "none"))
+            path.events.append(("next", what, "some", len(path.conds)))
+            p2.events.append(("next", what, "none", len(path.conds)))
             return [(A.SOME(SEG if what == "seg" else SYM), path), (A.NONE, p2)]
         if name.endswith("Symbol::is_undefined"):
             p2 = path.copy()
